@@ -55,7 +55,8 @@ type ringWorld struct {
 	// trace of the executed steps, for the replay (formatted on demand)
 	trace []tent
 	// counters
-	links, unlinks, removed, joined, lazy int
+	links, unlinks, removed, joined, lazy           int
+	edgeZero, edgeNeg, edgeMultiple, selfLink, len1 int
 }
 
 func newRingWorld() *ringWorld {
@@ -238,6 +239,8 @@ func (w *ringWorld) apply(st rstep) (fail *ringFail, skipped bool) {
 	if needRecv {
 		if n, _ := kLinks(ka); n == nil {
 			w.lazy++
+		} else if n == ka {
+			w.len1++
 		}
 	}
 	w.trace = append(w.trace, tent{st: st, dst: w.dstName(st.dst)})
@@ -339,6 +342,16 @@ func (w *ringWorld) dstName(dst int) int {
 	return dst
 }
 
+// rawLen is the length of the reference ring s, read over the raw links
+// (never initialises a zero element; such an element is a ring of one).
+func rawLen(s *cring.Ring) int {
+	n := 1
+	for p, _ := sLinks(s); p != nil && p != s; p, _ = sLinks(p) {
+		n++
+	}
+	return n
+}
+
 // sameRing reports whether a and b are elements of one ring in the reference
 // (read-only walk over raw links; a zero element is its own ring).
 func (w *ringWorld) sameRing(a, b *cring.Ring) bool {
@@ -418,6 +431,11 @@ func (w *ringWorld) flushCounts(pre string) {
 	rec.Count(pre+"link_other_ring", w.joined)
 	rec.Count(pre+"unlink_calls", w.unlinks)
 	rec.Count(pre+"lazy_init_receivers", w.lazy)
+	rec.Count(pre+"length_1_receivers", w.len1)
+	rec.Count(pre+"arg_zero", w.edgeZero)
+	rec.Count(pre+"arg_negative", w.edgeNeg)
+	rec.Count(pre+"arg_multiple_of_len", w.edgeMultiple)
+	rec.Count(pre+"link_with_itself", w.selfLink)
 }
 
 // ---------------------------------------------------------------- seeded
@@ -462,6 +480,11 @@ func runRingSeeded(idx int, g group) {
 		tot.joined += w.joined
 		tot.unlinks += w.unlinks
 		tot.lazy += w.lazy
+		tot.len1 += w.len1
+		tot.edgeZero += w.edgeZero
+		tot.edgeNeg += w.edgeNeg
+		tot.edgeMultiple += w.edgeMultiple
+		tot.selfLink += w.selfLink
 	}
 	tot.flushCounts("ring.seeded.")
 	rec.Count("ring.seeded.steps", steps)
@@ -507,21 +530,47 @@ func genRingStep(rng *mon.RNG, w *ringWorld) rstep {
 	if a < 0 {
 		return rstep{op: rNew, n: rng.Range(1, 5), dst: dst}
 	}
+	// edge arguments: 0, negative, exact multiples of the receiver's length
+	// (length read from the reference structure, which is isomorphic here)
+	edge := func(n int) int {
+		if !rng.Chance(1, 4) {
+			return n
+		}
+		l := rawLen(w.hs[a])
+		switch rng.Intn(4) {
+		case 0:
+			w.edgeZero++
+			return 0
+		case 1:
+			w.edgeNeg++
+			return -rng.Range(1, 2*l+1)
+		default:
+			w.edgeMultiple++
+			return l * rng.Range(1, 3)
+		}
+	}
 	switch op {
 	case rMove:
 		n := rng.Range(-3, 3)
 		if rng.Chance(1, 4) {
 			n = rng.Range(-12, 12)
 		}
-		return rstep{op: rMove, a: a, n: n, dst: dst}
+		return rstep{op: rMove, a: a, n: edge(n), dst: dst}
 	case rLink:
-		return rstep{op: rLink, a: a, b: pick(), dst: dst}
+		b := pick()
+		if rng.Chance(1, 6) {
+			b = a // a ring linked with itself
+		}
+		if w.hk[b] == w.hk[a] {
+			w.selfLink++
+		}
+		return rstep{op: rLink, a: a, b: b, dst: dst}
 	case rUnlink:
 		n := rng.Range(0, 3)
 		if rng.Chance(1, 4) {
 			n = rng.Range(-1, 9)
 		}
-		return rstep{op: rUnlink, a: a, n: n, dst: dst}
+		return rstep{op: rUnlink, a: a, n: edge(n), dst: dst}
 	}
 	return rstep{op: op, a: a, dst: dst}
 }
@@ -619,6 +668,11 @@ func runRingExhaustive(idx int, g group) {
 		tot.joined += w.joined
 		tot.unlinks += w.unlinks
 		tot.lazy += w.lazy
+		tot.len1 += w.len1
+		tot.edgeZero += w.edgeZero
+		tot.edgeNeg += w.edgeNeg
+		tot.edgeMultiple += w.edgeMultiple
+		tot.selfLink += w.selfLink
 		if code&1023 == 0 {
 			rec.Progress()
 		}
